@@ -788,7 +788,7 @@ def resumed_sessions(ctx):
     from panoptica.utils.segmentation_class import SegmentationClassGroups
     from panoptica.utils.label_group import LabelGroup
     rng = ctx.rng
-    for trial in range(ctx.scale(6, 60)):
+    for trial in range(ctx.scale(16, 80)):
         names = rng.sample(["alpha", "b-eta", "gamma g", "d_elta"], rng.randint(1, 3))
         labs = {n: [i + 1] for i, n in enumerate(names)}
         log_times = rng.random() < 0.3
@@ -832,7 +832,26 @@ def resumed_sessions(ctx):
                 except Exception as e:  # noqa
                     problem = f"session {si + 1} on {given.name!r} raised {type(e).__name__}: {str(e)[:120]}"
                     break
-            case = {"kind": "resumed_sessions", "groups": names, "spelling": spelling, "as_str": as_str, "sessions": n_sessions, "log_times": log_times}
+            other = None
+            if problem is None and trial % 2 == 0:
+                # a further session with a DIFFERENT setup (other metrics) on the same file, continuing or not: it is refused, or whatever
+                # it records can be read back like everything else -- it never shifts values under the wrong column
+                other = {"continue_file": trial % 4 == 0, "metrics": rng.choice([["IOU"], ["DSC", "IOU", "RVD"], ["RVD"]])}
+                ev2 = quiet(lambda: Panoptica_Evaluator(expected_input=InputType.MATCHED_INSTANCE, instance_metrics=[getattr(Metric, m) for m in other["metrics"]],
+                                                        global_metrics=[Metric.IOU], segmentation_class_groups=SegmentationClassGroups({n: LabelGroup(labs[n]) for n in names})))
+                try:
+                    agg2 = quiet(Panoptica_Aggregator, ev2, str(final) if as_str else final, log_times=log_times, continue_file=other["continue_file"])
+                    k += 1
+                    p, r = arr()
+                    quiet(agg2.evaluate, p.copy(), r.copy(), f"s{k}")
+                    expect[f"s{k}"] = quiet(ev2.evaluate, p.copy(), r.copy())
+                    other["accepted"] = True
+                except AssertionError:
+                    other["accepted"] = False
+                except Exception as e:  # noqa
+                    problem = f"a session with another setup raised {type(e).__name__}: {str(e)[:120]}"
+            case = {"kind": "resumed_sessions", "groups": names, "spelling": spelling, "as_str": as_str, "sessions": n_sessions, "log_times": log_times,
+                    "other_setup": other}
             ctx.count(dict(case, trial=trial), True)
             ctx.bump(f"resumed sessions, path spelling {spelling}")
             if problem is None:
@@ -842,8 +861,12 @@ def resumed_sessions(ctx):
                         one = st.get_one_subject(sname)
                         for g in names:
                             want = res[g][0].to_dict()
-                            for m in ("tp", "fp", "fn", "num_ref_instances", "num_pred_instances", "global_bin_dsc"):
-                                if not same_value(one[g][m], want[m]):
+                            for m in ("tp", "fp", "fn", "num_ref_instances", "num_pred_instances", "global_bin_dsc", "global_bin_iou", "sq", "sq_dsc"):
+                                if m not in want:
+                                    continue
+                                if m not in one[g]:
+                                    problem = f"subject {sname!r}, group {g!r}: the reported {m} = {want[m]} cannot be read back (no such column)"
+                                elif not same_value(one[g][m], want[m]):
                                     problem = f"subject {sname!r}, group {g!r}, {m}: loaded {one[g][m]} but the result says {want[m]}"
                 except Exception as e:  # noqa
                     problem = f"the loader fails on the file the sessions wrote: {type(e).__name__}: {str(e)[:120]} (rows: {[c[0] for c in read_cells(final)] if final.exists() else None})"
